@@ -2375,6 +2375,8 @@ impl<Alloc: BrotliAlloc> BrotliEncoderStateStruct<Alloc> {
                 self.last_bytes_bits_ = (storage_ix & 7u32 as usize) as u8;
             }
             self.update_last_processed_pos();
+            // everything offered has been emitted: nothing is left for a later meta-block
+            self.last_flush_pos_ = self.input_pos_;
             // *output = &mut s.storage_.slice_mut();
             self.next_out_ = NextOut::DynamicStorage(0); // this always returns that
             *out_size = storage_ix >> 3;
